@@ -151,6 +151,12 @@ def timeOfText (s : Bytes) : Option Int :=
 
 def inRange (bits : Nat) (i : Int) : Bool := -(2 ^ (bits - 1) : Int) ≤ i && i < (2 ^ (bits - 1) : Int)
 
+/-- the integers an integer column's decoder gives back as the number they are: everything an int64 holds
+    (a value beyond the signed range of the column's width comes from an UNSIGNED column and stays what it is),
+    and for BIGINT also what only a uint64 holds -/
+def intKept (bits : Nat) (i : Int) : Bool :=
+  -(9223372036854775808 : Int) ≤ i && i < (if bits = 64 then (18446744073709551616 : Int) else 9223372036854775808)
+
 /-- the value the document holds, taken as it is (types.ColumnValueFromJSON's last resort; numbers are read
     with json.Number, so an integer keeps all its digits) -/
 def passThrough : JVal → GoVal
@@ -168,7 +174,7 @@ def unmarshalC : JClass → JVal → Except DecErr GoVal
   | .real, .int i => .ok (.int i)                      -- float32(i): the same number while exact (see `supported`)
   | .dbl, .float t f => .ok (.float t f)
   | .dbl, .int i => .ok (.int i)
-  | .intN bits, .int i => if inRange bits i then .ok (.int i) else .error .error
+  | .intN bits, .int i => if intKept bits i then .ok (.int i) else .error .error
   | .intN _, .float _ _ => .error .error
   | .time, .str s => (match timeOfText s with | some ns => .ok (.time ns) | none => .error .error)
   | .char, .str s => (match b64dec s with | some b => .ok (.str b) | none => .ok (.str s))
@@ -211,7 +217,7 @@ def undoEq : GoVal → GoVal → Bool
 def supported (ser : Serializer) (jdbc : Int) (v : GoVal) : Bool :=
   match v, classOf jdbc with
   | .nil, _ => true
-  | .int i, .intN bits => inRange bits i
+  | .int i, .intN bits => intKept bits i
   | .int i, .real => exactF64 i
   | .int i, .dbl => exactF64 i
   | .int _, .time => false
